@@ -4,6 +4,7 @@
 //!   lmconform record <PROP> <out.ndjson> [--seed N] [--thorough]   impl -> spec: run drivers, log events
 //!   lmconform replay <PROP> <file>                                 spec -> impl: step TLC behaviours
 mod c04;
+mod c05;
 mod c19;
 mod pipe;
 mod util;
@@ -39,6 +40,7 @@ fn main() {
             match prop {
                 "C19" => c19::record(&mut rec, seed, thorough),
                 "C04" => c04::record(&mut rec, seed, thorough),
+                "C05" => c05::record(&mut rec, seed, thorough),
                 _ => {
                     eprintln!("unknown property {}", prop);
                     std::process::exit(2);
